@@ -24,7 +24,9 @@ PROPERTY = 'C07'
 LEVEL = 'exploration'
 RULE = ('A case = lock variant (FileLock remove_on_unlock=True / False, SemLock n=1..3; with or without '
         'file_permissions) x 2-4 contenders x 1-3 lock/critical-section/unlock cycles each (fresh lock object per '
-        'cycle, dropped after unlock) x polling timeout of 1-5 steps x one schedule = the list of all scheduler '
+        'cycle dropped after unlock, or ONE object per contender kept alive across its cycles and until after the '
+        'final re-acquisition probe) x injected fault: os.remove in unlock() refused with EPERM while the file stays, '
+        'for a drawn subset of (contender, cycle) x polling timeout of 1-5 steps x one schedule = the list of all scheduler '
         'decisions at the file-system-call yield points (exists/open/chmod/flock/stat/close/remove/handle-drop/'
         'sleep) plus the randint draws. Schedules come from (i) a stateless DFS that executes EVERY schedule with at '
         'most k preemptions for the fixed small configurations listed in coverage.exhaustive_scope (2 contenders x 2 '
@@ -36,11 +38,12 @@ RULE = ('A case = lock variant (FileLock remove_on_unlock=True / False, SemLock 
 ASSUMPTIONS = [
     'schedule granularity = the file-system calls of lock.py / lockfile.py (property wording); code between two calls is atomic',
     'local-file flock semantics of the running kernel (real open/flock/unlink in a mkdtemp dir, on tmpfs when available); NFS/lockd not modelled',
-    'contenders drop the lock object right after unlock() (as every `with FileLock(...)` caller does); the implicit close of a '
-    'handle that unlock() left open is a separate step',
+    'throw-away contenders drop the lock object right after unlock() (as every `with FileLock(...)` caller does); the implicit '
+    'close of a handle that unlock() left open is a separate step; keep-alive contenders reuse one object and never drop it',
+    'injected fault model: unlink refused with EPERM although the file exists (sticky / read-only lock directory)',
     'virtual clock: a sleeping waiter may be resumed at any time and the clock then jumps to its wake-up time; timeouts are 1-5 polling steps',
     'a failed attempt counts as justified when, for every lock file (slot) of the lock, some other contender held a flock on a '
-    'file of that slot at some instant of the attempt (weakest reading of "the lock was unavailable"; the stricter reading '
+    'file of that slot - and had not yet returned from unlock() - at some instant of the attempt (weakest reading of "the lock was unavailable"; the stricter reading '
     '"all n slots held at one instant" is only counted, class f:sem-timeout-with-attempt-never-seeing-all-slots-held-at-once)',
     'lock() may only return (acquired) or raise LockTimeout; any other exception counts as failing to take the lock',
     'liveness clauses are checked as: no deadlock under the scheduler, and after all contenders finished all n slots can be taken at once',
